@@ -269,7 +269,7 @@ func genOutbox(r *Rng, prop string, k int, tier string) *RunSpec {
 			box = st.Carol
 		}
 		if o.QueryActor && r.Bool() {
-			box = st.Quinn // an outbox whose IRI carries a query string
+			box = Pick(r, []*ActorDir{st.Quinn, st.Quinn, st.Quent}) // outboxes whose IRIs carry a query string (and differ only there)
 		}
 		var rq ReqSpec
 		if !o.Social || (o.Federating && r.Intn(5) == 0) {
